@@ -6,6 +6,7 @@ git -C /repo worktree add --detach $WT HEAD >/dev/null 2>&1
 trap 'git -C /repo worktree remove --force $WT >/dev/null 2>&1' EXIT
 for d in /verif/seeded/*/; do
   id=$(basename $d); pid=${id%%-*}
+  if [ -n "$ONLY" ] && [[ " $ONLY " != *" $pid "* ]]; then continue; fi
   git -C $WT checkout -q -- . ; git -C $WT clean -fdq
   timeout 60 /venv/bin/python $d/demo.py $WT >/dev/null 2>&1; d0=$?
   if ! git -C $WT apply $d/patch.diff 2>/dev/null; then echo "$id DOES-NOT-APPLY demo_head=$d0"; continue; fi
